@@ -86,6 +86,21 @@ def _gen_faults(rng, seed, tier):
             ops.append(r)
         else:
             ops.append(op)
+    # bulk updates failing part-way (minerals sharing environment 0)
+    group = [j for j, m in enumerate(world["minerals"]) if m["flow"] == 0]
+    if len(group) >= 2 and rng.random() < 0.5:
+        T = max([op["t1"] for op in ops if op.get("m") in group] or [1.0])
+        for _ in range(rng.randint(1, 3)):
+            order = group[:]
+            rng.shuffle(order)
+            b = {"op": "update_all", "ms": order, "t0": T, "t1": T + rng.choice([0.05, 0.2]),
+                 "flow": 0, "path": 0, "params": world["minerals"][group[0]]["params"],
+                 "F_from": order[0]}
+            if rng.random() < 0.7:
+                b["fault"] = {"kind": rng.choice(["L_raises", "position_raises"]),
+                              "at_call": rng.randrange(1 << 20)}
+            ops.append(b)
+            T = b["t1"]
     return {"property": PROPERTY, "engine": "world", "seed": seed, "mode": "faults",
             "world": world, "ops": ops}
 
@@ -258,7 +273,76 @@ class C07Monitor:
         if max(dA, df, dF) > tol:
             self.v(clause, i, mrec.idx, {"dA": dA, "df": df, "dF": dF, "tol": tol})
 
+    def _bulk(self, world, i, op, rec):
+        """A bulk update, possibly failing part-way: every mineral before the failing one has
+        appended exactly one snapshot to BOTH lists, the failing one and those after it none;
+        minerals outside the call are untouched."""
+        ms = rec["ms"]
+        kind = rec.get("fault")
+        if kind:
+            self.inc(f"fault_configured.bulk.{kind}")
+            if rec.get("fired"):
+                self.inc(f"fault_fired.bulk.{kind}")
+        appended_flags = []
+        for m in ms:
+            mrec = world.minerals[m]
+            o = mrec.obj
+            nO, nF, nR = len(o.orientations), len(o.fractions), len(mrec.ref)
+            if (id(o.orientations), id(o.fractions)) != mrec.ids:
+                self.v("untouched", i, m, {"what": "history list object replaced by a bulk update"})
+                mrec.sync_ref()
+                appended_flags.append(None)
+                continue
+            if nO == nF == nR + 1 and all(
+                    sha(o.orientations[k], o.fractions[k]) == mrec.ref[k][2] for k in range(nR)):
+                appended_flags.append(True)
+                A, f = o.orientations[-1], o.fractions[-1]
+                mrec.ref.append((np.array(A, copy=True), np.array(f, copy=True), sha(A, f)))
+            elif nO == nF == nR and all(
+                    sha(o.orientations[k], o.fractions[k]) == mrec.ref[k][2] for k in range(nR)):
+                appended_flags.append(False)
+            else:
+                self.v("untouched", i, m, {"what": "bulk update left a mineral's history inconsistent",
+                                           "orientations": nO, "fractions": nF, "expected": [nR, nR + 1],
+                                           "status": rec["status"]})
+                mrec.sync_ref()
+                appended_flags.append(None)
+        flags = [x for x in appended_flags if x is not None]
+        if rec["status"] == "ok":
+            self.inc("bulk_updates_ok")
+            if not all(flags):
+                self.v("untouched", i, ms[0], {"what": "completed bulk update did not append to every mineral",
+                                               "appended": appended_flags})
+        else:
+            self.inc("bulk_updates_raised")
+            if kind and rec.get("fired"):
+                self.inc("bulk_updates_failed_part_way")
+            # appended must form a prefix of the list
+            seen_false = False
+            for x in flags:
+                if x is False:
+                    seen_false = True
+                elif x is True and seen_false:
+                    self.v("untouched", i, ms[0], {"what": "a mineral after the failing one was updated",
+                                                   "appended": appended_flags})
+                    break
+            if all(flags) and flags:
+                self.v("untouched", i, ms[0], {"what": "bulk update raised but every mineral, "
+                                               "including the failing one, appended a snapshot",
+                                               "appended": appended_flags})
+        self._untouched(world, i, why="bulk update", except_m=None) if False else None
+        for mrec in world.minerals:
+            if mrec.idx in ms:
+                continue
+            o = mrec.obj
+            if len(o.orientations) != len(mrec.ref) or len(o.fractions) != len(mrec.ref):
+                self.v("untouched", i, mrec.idx, {"what": "mineral outside a bulk update changed"})
+                mrec.sync_ref()
+
     def after_op(self, world, i, op, rec):
+        if rec["op"] == "update_all":
+            self._bulk(world, i, op, rec)
+            return
         subs = rec.get("sub") or [rec]
         for r in subs:
             if r["op"] != "update":
@@ -385,6 +469,8 @@ def execute(scn):
     world.run(scn["ops"], after_op=mon.after_op)
     c = mon.c
     c["update_calls"] = sum(len(r.get("sub") or [r]) for r in world.log)
+    mon.instants |= {("bulk." + r["fault"], r.get("nL")) for r in world.log
+                     if r["op"] == "update_all" and r.get("fault") and r.get("fired")}
     c["fault_sweeps"] = sum(1 for r in world.log if r["op"] == "fault_sweep")
     c["sweep_instants"] = sum(r["instants"] for r in world.log if r["op"] == "fault_sweep")
     c["sweeps_exhaustive"] = sum(1 for r in world.log if r["op"] == "fault_sweep"
@@ -456,7 +542,7 @@ PROBES = ["rejections_observed.zeroL", "rejections_observed.rotation"] + \
          [f"fault_fired_in_solver_loop.{k}" for k in
           ("L_raises", "position_raises", "regime_raises", "solver_failed", "params_key_missing",
            "regime_unsupported", "L_malformed", "L_nonfinite")] + \
-         ["fault_fired.phase_not_in_assemblage", "recoveries_checked", "rejections_observed",
+         ["bulk_updates_failed_part_way", "fault_fired.phase_not_in_assemblage", "recoveries_checked", "rejections_observed",
           "null_checked.zeroL", "null_checked.visc", "null_checked.M0",
           "null_with_grains_below_threshold", "sweeps_exhaustive"]
 SHRINK_BUDGET = 150
